@@ -886,7 +886,17 @@ def _r3_hotspot(ctx):
         for f_, m_ in ((small.left, small.right), (small.right, small.left)):
             if isinstance(f_, ast.Name) and f_.id == frac and is_max(m_):
                 ok_rhs = True
-    if big is not None and ok_rhs:
+    def has_abs(e):
+        e2 = inline_single_defs(calc.node, e, depth=5)
+        return any((isinstance(x, ast.Call) and ((isinstance(x.func, ast.Attribute) and x.func.attr == "abs") or
+                                                 call_name(x) in ("abs", "np.abs", "np.absolute", "np.fabs"))) for x in ast.walk(e2))
+    if big is not None and ok_rhs and has_abs(big) != has_abs(small):
+        ctx.violated(calc, thr[0], "the hot-spot mask compares %s with a reference taken from %s values: for a field whose largest "
+                     "magnitude is negative the threshold lies above every entry that should be labelled (hot spots vanish), and a "
+                     "distant compressive trough changes the tensile labels" %
+                     ("the magnitudes" if has_abs(big) else "the signed values", "signed" if has_abs(big) else "absolute"),
+                     text="hot-spot reference on other values than the mask")
+    elif big is not None and ok_rhs:
         ctx.holds(calc, thr[0], "entries with value >= %s*max are hot spots (non-strict)" % frac)
     else:
         ctx.violated(calc, thr[0], "hot-spot threshold is %s; it must label exactly the entries at or above %s*max "
